@@ -263,11 +263,11 @@ def finish(ctx, ob, bad, role, confirm):
 
 # ------------------------------------------------------------------ M/C: cursor model over extracted persist paths
 def check_cursor_model(ctx, persist_recs):
-    ob = ctx.ob('cursor-model/power-loss', 'z3: every program of ≤ 4 steps over {write, persist(mode)} built from the extracted paths of Writer::persist: a write acknowledged before an Ok sync-level persist is durable', ['writer::<impl>::persist'])
+    ob = ctx.ob('cursor-model/power-loss', 'z3: every program of ≤ 4 (quick) / 7 (thorough) steps over {write, persist(mode)} built from the extracted paths of Writer::persist: a write acknowledged before an Ok sync-level persist is durable', ['writer::<impl>::persist'])
     if not persist_recs or any(not persist_recs.get(md) for md in MODES):
         ob.status = 'undecided'; ob.detail = 'persist paths unavailable'; return ob
     dirty_pre = z3.Bool('dirty_pre')
-    N = 4
+    N = 4 if ctx.tier == 'quick' else 7
     s = z3.Solver()
     kind = [z3.Int(f'kind{i}') for i in range(N)]        # 0 write, 1 persist
     mode = [z3.Int(f'mode{i}') for i in range(N)]
